@@ -213,6 +213,10 @@ def run(run: Run) -> int:
         cases.append(c)
     cases.append(function_in_branch_and_main_case())
     mixed = mixed_cases(run, n // 4) + converted_twice_cases() + inlined_older_model_cases() + [body_node_not_converted_case()]
+    from harness import c14
+    for dc in c14.deep_chain_cases():       # functions calling functions calling functions (depth 3-5): every level needs its definition
+        dc.meta["names"] = "corner:deep-function-chain/" + dc.meta["deep_chain"]
+        mixed.append(dc)
     cases += optional_output_cases()       # compared with the model: the result identity of an Optional value needs opset 16
     for c in mixed:
         B.run_impl(c)
